@@ -218,6 +218,8 @@ pub struct DirCtx<TC: HasRef> {
     pub versions: HashMap<String, u64>,
     /// which observation kinds the sweep performs (empty = all)
     pub kinds: Vec<String>,
+    /// honest lookup proofs kept from earlier epochs (C06: material from another epoch's tree)
+    pub old_proofs: Vec<(String, u64, akd::LookupProof)>,
 }
 
 pub fn rid(d: &Digest) -> String {
@@ -262,6 +264,7 @@ impl<TC: HasRef> DirCtx<TC> {
             ident_upto: 0,
             versions: HashMap::new(),
             kinds: vec![],
+            old_proofs: vec![],
         }
     }
 
@@ -440,6 +443,7 @@ impl<TC: HasRef> DirCtx<TC> {
             ident_upto: self.ident_upto,
             versions: self.versions.clone(),
             kinds: self.kinds.clone(),
+            old_proofs: vec![],
         })
     }
 
@@ -527,6 +531,7 @@ impl<TC: HasRef> DirCtx<TC> {
             ident_upto: self.ident_upto,
             versions: self.versions.clone(),
             kinds: self.kinds.clone(),
+            old_proofs: vec![],
         };
         if warm {
             let mut scratch = Tracer::new();
@@ -617,6 +622,7 @@ impl<TC: HasRef> DirCtx<TC> {
             ident_upto: 0,
             versions: self.versions.clone(),
             kinds: self.kinds.clone(),
+            old_proofs: vec![],
         };
         let mut scratch = Tracer::new();
         r.sweep(&mut scratch).await;
@@ -672,6 +678,9 @@ impl<TC: HasRef> DirCtx<TC> {
                 } else {
                     None
                 };
+                if self.wants_exact("forge_lookup") {
+                    self.old_proofs.push((label.to_string(), eh.0, proof.clone()));
+                }
                 match akd::client::lookup_verify::<TC>(&self.pk, eh.1, eh.0, l, proof) {
                     Ok(vr) => tr.emit(
                         json!({"ev": "lookup", "label": label, "res": "ok", "epoch": eh.0, "root": self.known_root(&eh), "out": self.vr_json(&vr)}),
@@ -844,6 +853,173 @@ impl<TC: HasRef> DirCtx<TC> {
         }
     }
 
+    /// C06 / C07: the adversarial server on this (honest) directory. The grids are enumerated here,
+    /// every verdict is judged by TLC against AkdProofGame.
+    pub async fn forge_events(&mut self, tr: &mut Tracer, do_lookup: bool, do_history: bool) {
+        use akd::storage::types::DbRecord as R;
+        let azks = match self.manager.get::<akd::Azks>(&akd::append_only_zks::DEFAULT_AZKS_KEY).await {
+            Ok(R::Azks(a)) => a,
+            _ => return,
+        };
+        let e = azks.latest_epoch;
+        let f = crate::forge::Forge::<TC>::over(self.manager.clone(), azks).await;
+        let labels = self.labels.clone();
+        let values = self.values.clone();
+        let mut jobs = vec![];
+        for l in labels.iter() {
+            let total = self.versions.get(l).copied().unwrap_or(0);
+            if do_lookup {
+                for ver in 1..=(total + 1).min(e + 1) {
+                    for val in values.iter() {
+                        for ep in 1..=e.max(1) {
+                            let marker = 1u64 << (63 - ver.leading_zeros());
+                            jobs.push(json!({"kind": "lookup", "label": l, "claim": [val, ver, ep], "marker": marker}));
+                        }
+                    }
+                    // a superseded version served with an absence "proof" of its stale marker from a shallow anchor
+                    if ver < total {
+                        if let Some(st) = self.true_entry(l, ver).await {
+                            let marker = 1u64 << (63 - ver.leading_zeros());
+                            for up in 1..=4u64 {
+                                jobs.push(json!({"kind": "lookup", "label": l, "claim": [st.0, ver, st.1], "marker": marker, "up": up}));
+                            }
+                        }
+                    }
+                    // a marker proof for another version than the one the verifier expects
+                    if ver >= 3 {
+                        jobs.push(json!({"kind": "lookup", "label": l, "claim": [values[0], ver, 1], "marker": ver}));
+                    }
+                }
+                // a version beyond the current epoch
+                jobs.push(json!({"kind": "lookup", "label": l, "claim": [values[0], e + 1, e.max(1)], "marker": 1u64 << (63 - (e + 1).leading_zeros())}));
+            }
+            if do_history && total >= 1 {
+                // the true list, newest first, taken from the honest server's complete history
+                let lab = self.conc.label(l);
+                let base: Vec<(String, u64, u64)> = match self.dir.key_history(&lab, HistoryParams::Complete).await {
+                    Ok((hp, _)) => hp.update_proofs.iter().map(|u| (self.conc.value_name(&u.value.0), u.version, u.epoch)).collect(),
+                    Err(_) => continue,
+                };
+                let t = base.len();
+                let mk = |claims: &Vec<(String, u64, u64)>, n: u64, mode: &str, dp: i64, df: i64| -> Value {
+                    let vers: Vec<u64> = claims.iter().map(|c| c.1).collect();
+                    let start = vers.iter().copied().min().unwrap_or(1).max(1);
+                    let end = vers.iter().copied().max().unwrap_or(1).max(1).min(e.max(1));
+                    let (mut past, mut fut) = akd_core::utils::get_marker_versions(start, end.max(start), e.max(end.max(start)));
+                    if dp < 0 { past.pop(); }
+                    if dp > 0 { past.push(start); }
+                    if df < 0 { fut.pop(); }
+                    if df > 0 { fut.push(e + 1); }
+                    json!({"kind": "history", "label": l, "claims": claims.iter().map(|c| json!([c.0, c.1, c.2])).collect::<Vec<_>>(),
+                        "past": past, "future": fut, "n": n, "mode": mode})
+                };
+                let other_val = |v: &str| -> String { values.iter().find(|x| x.as_str() != v).cloned().unwrap_or("x".into()) };
+                for mode in ["default", "allow"] {
+                    // as is, under every parameter
+                    for n in 0..=(t as u64 + 1) {
+                        jobs.push(mk(&base, n, mode, 0, 0));
+                    }
+                    for k in 1..t {
+                        // drop the newest k / the oldest k
+                        let newest_dropped: Vec<_> = base[k..].to_vec();
+                        jobs.push(mk(&newest_dropped, 0, mode, 0, 0));
+                        for up in 1..=3u64 {
+                            // ... with the absence of the hidden versions "proved" from shallow anchors
+                            let mut j = mk(&newest_dropped, 0, mode, 0, 0);
+                            j["up"] = json!(up);
+                            jobs.push(j);
+                        }
+                        jobs.push(mk(&newest_dropped, (t - k) as u64, mode, 0, 0));
+                        let oldest_dropped: Vec<_> = base[..t - k].to_vec();
+                        jobs.push(mk(&oldest_dropped, 0, mode, 0, 0));
+                        jobs.push(mk(&oldest_dropped, (t - k) as u64, mode, 0, 0));
+                        jobs.push(mk(&oldest_dropped, (t - k) as u64 + 1, mode, 0, 0));
+                    }
+                    for i in 0..t {
+                        let mut c = base.clone();
+                        c.remove(i);
+                        if !c.is_empty() {
+                            jobs.push(mk(&c, 0, mode, 0, 0));
+                        }
+                        let mut c = base.clone();
+                        c.insert(i, base[i].clone());
+                        jobs.push(mk(&c, 0, mode, 0, 0));
+                        if i + 1 < t {
+                            let mut c = base.clone();
+                            c.swap(i, i + 1);
+                            jobs.push(mk(&c, 0, mode, 0, 0));
+                        }
+                        let mut c = base.clone();
+                        c[i].0 = other_val(&base[i].0);
+                        jobs.push(mk(&c, 0, mode, 0, 0));
+                        let mut c = base.clone();
+                        c[i].0 = "e".to_string();
+                        jobs.push(mk(&c, 0, mode, 0, 0));
+                        let mut c = base.clone();
+                        c[i].2 += 1;
+                        jobs.push(mk(&c, 0, mode, 0, 0));
+                        if base[i].2 > 1 {
+                            let mut c = base.clone();
+                            c[i].2 -= 1;
+                            jobs.push(mk(&c, 0, mode, 0, 0));
+                        }
+                    }
+                    // the oldest entry (version 1 in a complete history) presented as a tombstone with a shifted epoch
+                    if mode == "allow" && base[t - 1].1 == 1 && t >= 2 && base[t - 1].2 + 1 <= base[t - 2].2 {
+                        let mut c = base.clone();
+                        c[t - 1].0 = "e".to_string();
+                        c[t - 1].2 += 1;
+                        let mut j = mk(&c, 0, mode, 0, 0);
+                        j["tag"] = json!("unbound_epoch_probe");
+                        jobs.push(j);
+                    }
+                    // invented newer version
+                    let mut c = base.clone();
+                    c.insert(0, (values[0].clone(), t as u64 + 1, e));
+                    jobs.push(mk(&c, 0, mode, 0, 0));
+                    // marker lists with one proof too few / too many
+                    for (dp, df) in [(-1, 0), (1, 0), (0, -1), (0, 1)] {
+                        jobs.push(mk(&base, 0, mode, dp, df));
+                    }
+                }
+            }
+        }
+        if do_lookup {
+            // sub-proofs taken from another label's honest proof
+            for l in labels.iter() {
+                let total = self.versions.get(l).copied().unwrap_or(0);
+                for o in labels.iter() {
+                    let ototal = self.versions.get(o).copied().unwrap_or(0);
+                    if o == l || total == 0 || ototal == 0 {
+                        continue;
+                    }
+                    for part in ["existence", "existence_path_only", "marker", "freshness", "nonce"] {
+                        jobs.push(json!({"kind": "lookup_mix", "label": l, "other": o, "over": ototal, "part": part, "claim": [values[0], total, e.max(1)]}));
+                    }
+                }
+            }
+            // honest proofs of earlier epochs against the current root
+            let root = f.root().await;
+            let old = self.old_proofs.clone();
+            for (l, from_epoch, proof) in old {
+                let lab = self.conc.label(&l);
+                let (verdict, out) = f.verify_lookup(root, e, &lab, proof, &self.conc);
+                tr.emit(json!({"ev": "forge_stale", "label": l, "from_epoch": from_epoch, "verdict": verdict, "out": out}));
+            }
+        }
+        let jobs = Value::Array(jobs);
+        let mut conc = self.conc.clone();
+        conc.value("e");
+        crate::forge::run_jobs(&f, &mut conc, e, &jobs, tr).await;
+    }
+
+    /// (value name, epoch) of version `ver` of a label, from the honest server's own history
+    async fn true_entry(&mut self, l: &str, ver: u64) -> Option<(String, u64)> {
+        let lab = self.conc.label(l);
+        let (hp, _) = self.dir.key_history(&lab, HistoryParams::Complete).await.ok()?;
+        hp.update_proofs.iter().find(|u| u.version == ver).map(|u| (self.conc.value_name(&u.value.0), u.epoch))
+    }
+
     fn wants(&self, k: &str) -> bool {
         self.kinds.is_empty() || self.kinds.iter().any(|x| x == k)
     }
@@ -885,6 +1061,10 @@ impl<TC: HasRef> DirCtx<TC> {
                     }
                 }
             }
+        }
+        if self.wants_exact("forge_lookup") || self.wants_exact("forge_history") {
+            let (a, b) = (self.wants_exact("forge_lookup"), self.wants_exact("forge_history"));
+            self.forge_events(tr, a, b).await;
         }
         if self.wants("audit") {
             let cur = self.roots.len() as u64 - 1;
